@@ -5,6 +5,7 @@ import (
 	"os"
 	"os/exec"
 	"regexp"
+	"runtime/debug"
 	"strings"
 	"time"
 	"unicode/utf8"
@@ -113,6 +114,14 @@ func humanObs(out string) (string, bool) {
 // deepChild: the parse that used to end the process with "fatal error: stack overflow" runs in a
 // child process, so that the parent can report it as a failing input.
 func deepChild() {
+	// quick tier: a 32 MB stack limit instead of Go's 1 GB, so that recursion proportional to the nesting
+	// shows at 300,000 levels (a frame of a recursive walker is > 100 bytes) instead of needing millions;
+	// the bounded recursion of popValue (maxValueDepth frames) must fit. Thorough tier: default limit, 10^6 blocks.
+	nb := 1000000
+	if os.Getenv("BCL_DEEP_TIER") != "thorough" {
+		debug.SetMaxStack(32 << 20)
+		nb = 300000
+	}
 	n := 2000000
 	src := "a = " + strings.Repeat("[", n)
 	for _, ff := range []bool{true, false} {
@@ -128,7 +137,6 @@ func deepChild() {
 	}
 	// block nesting: the walker and fragmentsToFile are loops, so any depth must parse; the property's
 	// clauses are evaluated on the whole tree (iteratively), in both modes
-	nb := 1000000
 	for i, c := range deepBlockInputs(nb) {
 		if i == 0 || i == 5 {
 			continue // subsumed at this depth by "balanced with statements innermost"
@@ -216,7 +224,7 @@ func runC11(cfg *vh.Config) error {
 		deepChild()
 	}
 	res := vh.NewResult("C11", cfg.Seed)
-	res.Rule = "inputs: every sequence of <=3 tokens over a 24-entry alphabet (all token types, a space, a character no token starts with, an unterminated string) rendered with single spaces, every sequence of <=2 rendered adjacent; windows of the repository's .j5s/.bcl/fixture files, unmutated and with 1-3 token deletions/insertions/swaps/duplications/truncations and multi-byte characters at line ends; grammar-generated files; every lexer sub-automaton (string, regex, block/line comment, description, number, stray character) x every continuation (valid escapes, invalid escape, lone backslash) x every ending (closed, newline, end of input without newline) in six grammatical positions; an unexpected token of every literal kind with a literal around the 20-byte cut of the message, ASCII and multi-byte, in ten error sites; every token-boundary prefix of generated statements (EOF in every grammatical position); array values nested 1500 (also in Coq) and maxValueDepth-1 / maxValueDepth / maxValueDepth+1 deep, the constant read from the code (in Coq in the thorough tier; the model's boundary at the generated constant is a compiled lemma), and 2,000,000 deep in a child process; blocks nested 1, 2, 3, 50, 200 (Coq), 10,000 and 1,000,000 (child process) deep: balanced, unclosed, one closer too many, syntax error innermost, with tags/qualifiers; random token soup incl. invalid UTF-8; both failFast values; non-trivial = distinct non-empty input"
+	res.Rule = "inputs: every sequence of <=3 tokens over a 24-entry alphabet (all token types, a space, a character no token starts with, an unterminated string) rendered with single spaces, every sequence of <=2 rendered adjacent; windows of the repository's .j5s/.bcl/fixture files, unmutated and with 1-3 token deletions/insertions/swaps/duplications/truncations and multi-byte characters at line ends; grammar-generated files; every lexer sub-automaton (string, regex, block/line comment, description, number, stray character) x every continuation (valid escapes, invalid escape, lone backslash) x every ending (closed, newline, end of input without newline) in six grammatical positions; an unexpected token of every literal kind with a literal around the 20-byte cut of the message, ASCII and multi-byte, in ten error sites; every token-boundary prefix of generated statements (EOF in every grammatical position); array values nested 1500 (also in Coq) and maxValueDepth-1 / maxValueDepth / maxValueDepth+1 deep, the constant read from the code (in Coq in the thorough tier; the model's boundary at the generated constant is a compiled lemma), and 2,000,000 deep in a child process; blocks nested 1, 2, 3, 50, 200 (Coq), 10,000 and 300,000 / 1,000,000 (child process, 32 MB / default stack limit) deep: balanced, unclosed, one closer too many, syntax error innermost, with tags/qualifiers; random token soup incl. invalid UTF-8; both failFast values; non-trivial = distinct non-empty input"
 	cf := &vh.CasesFile{
 		Header: "From Coq Require Import String List NArith ZArith.\nFrom J5V.model Require Import BclErrpos BclCorr.",
 		Type:   "c11case",
@@ -388,7 +396,7 @@ func runC11(cfg *vh.Config) error {
 	}
 	childDone := make(chan childRes, 1)
 	childCmd := exec.Command(os.Args[0], "-prop", "C11", "-out", cfg.Out)
-	childCmd.Env = append(os.Environ(), "BCL_DEEP_CHILD=1")
+	childCmd.Env = append(os.Environ(), "BCL_DEEP_CHILD=1", "BCL_DEEP_TIER="+cfg.Tier)
 	go func() { o, e := childCmd.CombinedOutput(); childDone <- childRes{e, o} }()
 	collectChild := func() {
 		select {
@@ -405,7 +413,7 @@ func runC11(cfg *vh.Config) error {
 				} else {
 					msg = clip(msg, 200)
 				}
-				res.Fail(vh.Failure{Case: caseNo, Stream: "deep", Sig: sig, Clause: "never panics and always terminates", Input: "\"a = \" + 2000000 x \"[\", then 1000000 nested blocks (balanced, unclosed, extra closer, inner syntax error)", Got: fmt.Sprintf("%v: %s", c.err, msg)})
+				res.Fail(vh.Failure{Case: caseNo, Stream: "deep", Sig: sig, Clause: "never panics and always terminates", Input: "\"a = \" + 2000000 x \"[\", then 300000 (quick) / 1000000 (thorough) nested blocks (balanced, unclosed, extra closer, inner syntax error)", Got: fmt.Sprintf("%v: %s", c.err, msg)})
 			}
 		case <-time.After(240 * time.Second):
 			_ = childCmd.Process.Kill()
